@@ -882,11 +882,33 @@ def plot_las(ctx, k, cap, table, conf):
     for nm in rng.sample(pool, min(len(pool), rng.randrange(1, 6))):
         if nm not in names:
             names.append(nm)
+    from TotalDepth.LAS.core import LASConstants
+    vendor = k % 2 == 1 or rng.random() < 0.25
+    if vendor:
+        for nm in rng.sample(pool, len(pool)):
+            if nm in LASConstants.LGFORMAT_LAS and nm not in names and len([n for n in names if n in LASConstants.LGFORMAT_LAS]) < 3:
+                names.append(nm)
     if not names:
         return None, [], {}
     up = rng.random() < 0.4
     shapes = {nm: rng.choice(['constant', 'sine', 'ramp', 'spiky', 'absent-runs']) for nm in names}
-    text, m = PS.las_plot_text(rng, names, nframes=rng.choice([20, 40, 80]), up=up, shapes=shapes)
+    # Vendor spellings: LASConstants.LGFORMAT_LAS maps a plot format's channel name to the LAS mnemonics that carry the same
+    # measurement (GR <- DLGR, CALI <- CAL, ...).  Every other LAS run names each such curve only by a vendor mnemonic.
+    file_name = {nm: nm for nm in names}
+    if vendor:
+        for nm in names:
+            alts = [a for a in LASConstants.LGFORMAT_LAS.get(nm, []) if a not in names]
+            if alts:
+                file_name[nm] = rng.choice(alts)
+    aliased = sorted(nm for nm in names if file_name[nm] != nm)
+    fnames = [file_name[nm] for nm in names]
+    text, m = PS.las_plot_text(rng, fnames, nframes=rng.choice([20, 40, 80]), up=up, shapes={file_name[nm]: shapes[nm] for nm in names})
+    if aliased:
+        for attr in ('channels', 'shapes', 'absent'):
+            d = getattr(m, attr)
+            for nm in aliased:
+                d[nm] = d.pop(file_name[nm])
+        rec.add('las_sources_with_vendor_mnemonics')
     if ref:
         # overwrite the reference column with an in-scale constant
         lines = text.split('\n')
@@ -926,8 +948,11 @@ def plot_las(ctx, k, cap, table, conf):
             continue
         rec.mon('las_produces_plot')
         out = _tmp(ctx, 'las%d_%s.svg' % (k, re.sub(r'\W', '_', uid)))
-        wit = dict(probe, source='generated LAS', input='LAS', format=uid, curves=names, matching=matching, las=text[:1500])
+        wit = dict(probe, source='generated LAS', input='LAS', format=uid, curves=names, matching=matching, las=text[:1500],
+                   vendor_mnemonics={nm: file_name[nm] for nm in aliased})
         classes = ['plot:las-xml-format', 'format:' + uid]
+        if any(nm in aliased for nm in matching):
+            classes.append('las:vendor-mnemonics-only' if all(nm in aliased for nm in matching) else 'las:vendor-mnemonics-some')
         try:
             pl = Plot.PlotReadXML(uid)
             has = pl.hasDataToPlotLAS(las, uid)
